@@ -18,6 +18,11 @@ def pin_times(ops):
     out = []
     for o in ops:
         if o["op"] == "touch":
+            # touch stamps a storage with the clock: the step itself is not compared, the modification time is pinned
+            # again right after it (on a stream touch and the time setters have no effect, so nothing needs pinning -
+            # and nothing could be pinned if they had)
+            out.append(dict(o, cmp=False))
+            out.append({"op": "set_mtime", "p": dict(o["p"]), "v": "epoch_150", "cmp": True})
             continue
         o = dict(o)
         if o["op"] in ("create_storage", "create_storage_all"):
@@ -44,7 +49,7 @@ def file_bundles(tier, seed):
     n = 10 if tier == "quick" else 40
     hs = []
     for si in range(n):
-        base = gens.random_history(rng, d, 3, 28 if tier == "quick" else 40, f"s{si}", heavy="marked", reopen_p=0.04, meta_p=0.05)
+        base = gens.random_history(rng, d, 3, 28 if tier == "quick" else 40, f"s{si}", heavy="marked", reopen_p=0.04, meta_p=0.12)
         ops = pin_times(base["ops"])
         for i, o in enumerate(ops):
             o["heavy"] = (i % 9 == 8) or i == len(ops) - 1
